@@ -281,10 +281,7 @@ func (w *world) placeArgs(caps []string, tag uint32, hold chan struct{}) func(ca
 					cl = hc.AddRef()
 				}
 			}
-			if cl == nil {
-				continue
-			}
-			id := s.Message().AddCap(cl)
+			id := s.Message().AddCap(cl) // a nil client is the descriptor "none"
 			if err := s.SetPtr(uint16(i), capnp.NewInterface(s.Segment(), id).ToPtr()); err != nil {
 				return err
 			}
@@ -473,6 +470,9 @@ func (w *world) stuck() bool {
 	if v.ShuttingDown {
 		return false
 	}
+	if v.SenderLocked {
+		return true // nobody is running, yet the sender lock is taken: every later sender blocks
+	}
 	w.x.mu.Lock()
 	defer w.x.mu.Unlock()
 	return !w.x.receiving || len(w.x.in) > 0
@@ -492,6 +492,14 @@ func (w *world) finish() string {
 	}
 	w.doApp("z")
 	w.settle()
+	// calls that reached a local server without the connection (resolved handles) return now
+	w.mu.Lock()
+	for k, p := range w.pending {
+		p.ch <- plan{kind: 'e'}
+		delete(w.pending, k)
+	}
+	w.mu.Unlock()
+	synctest.Wait()
 	for _, c := range w.calls {
 		c.cancel()
 	}
